@@ -29,5 +29,6 @@ elif [ "$cmd" = run ]; then
   ./check $P $T 2>&1 | grep -v "^WARNING" | cut -c1-400
   rc=${PIPESTATUS[0]}
   git -C /repo checkout -- .
+  ./check --setup >/dev/null 2>&1   # rebuild the node from the restored tree (no stale mutated binary)
   echo "exit=$rc"
 fi
